@@ -73,10 +73,10 @@ def launch_it(c, cfg_dir, reactor, log, creator, user_dir):
         config.ControlPort = 9151
         config.SocksPort = 9050
         return txtorcon.launch_tor(config, reactor, progress_updates=lambda p, t, s: log.append('progress:%d' % p),
-                                   timeout=(30 if c['timeout'] else None), tor_binary='/bin/true', connection_creator=creator,
+                                   timeout=(c.get('timeout_s', 30) if c['timeout'] else None), tor_binary='/bin/true', connection_creator=creator,
                                    kill_on_stderr=c['kill'])
     return txtorcon.launch(reactor, progress_updates=lambda p, t, s: log.append('progress:%d' % p), control_port=9151, socks_port=9050,
-                           data_directory=user_dir, timeout=(30 if c['timeout'] else None), tor_binary='/bin/true',
+                           data_directory=user_dir, timeout=(c.get('timeout_s', 30) if c['timeout'] else None), tor_binary='/bin/true',
                            connection_creator=creator, kill_on_stderr=c['kill'])
 
 
@@ -178,7 +178,7 @@ def run_impl(c):
                 elif k == 'timeout':
                     if not timed[0]:
                         timed[0] = True
-                        reactor.advance(31)
+                        reactor.advance(c.get('timeout_s', 30) + 1)
                 elif k == 'exit':
                     if not holder['tr'].exited:
                         holder['tr'].exited = True
@@ -539,6 +539,7 @@ def gen_cases(rng, tier):
             seq.append(['when', 'again'] if rng.random() < 0.4 else ['when'])
         ud = rng.choice([False, False, False, True, 'fresh'])
         yield within_h({'user_dir': ud, 'timeout': rng.random() < 0.8, 'kill': rng.random() < 0.8, 'ops': seq,
+                        'timeout_s': rng.choice([30, 30, 2, 2.0, 0.5, 0.25, 1]),     # (seconds; fractions of a second are seconds too)
                         'cfg_dir': (not ud) and rng.random() < 0.4})
     if tier != 'quick':
         multiset = [['out', LINE], ['conn', 0, True], ['ack', 0, True], ['ack', 0, True], ['prog', 0, 100], ['timeout'], ['exit', 0], ['when']]
